@@ -395,7 +395,12 @@ def check_geometric(rep: Report, ix) -> None:
     rep.saw("functions", fi.ref)
     Ti = params(fi.node)[1]
     gi = build_cfg(fi.node)
-    ok = bool(returns(gi)) and all(isinstance(r.ast.value, ast.Call) and dotted(r.ast.value.func) == "self.next" and len(r.ast.value.args) == 1 and is_name(r.ast.value.args[0], Ti) for r in returns(gi))
+
+    def _is_next_call(r):
+        v = resolve_expr(gi, r, r.ast.value) if r.ast.value is not None else None  # a local bound to the call is looked through
+        return isinstance(v, ast.Call) and dotted(v.func) == "self.next" and len(v.args) == 1 and is_name(v.args[0], Ti)
+
+    ok = bool(returns(gi)) and all(_is_next_call(r) for r in returns(gi))
     if not rep.oblige("geometric.initialize", ok):
         rep.violation("C09.geo-not-earlier", f"{fi.ref}::return", f"initialize must return self.next({Ti})", line=fi.node.lineno)
     if not any(CUR in gi.defs_at(n) for n in gi.nodes):
